@@ -217,6 +217,32 @@ def rule_eq(ctx, F):
             ctx.bad("R5", "ts_subtree_external_scanner_state:absent-is-empty", "ts_subtree_external_scanner_state no longer maps an absent token to the empty state")
 
 
+def rule_fragile_sides(ctx, F):
+    """R9: fragility is inherited one side at a time.  A parent is left-fragile because its *first* child is
+    left-fragile and right-fragile because its *last* child is right-fragile (or both because a child is an error).
+    The reuse veto tests either flag, so a wider inheritance (any fragile child / either side) spreads the veto up
+    a whole spine of healthy nodes and they are re-parsed on every edit."""
+    from cstores import stores, writes_record
+    fn = ctx.need_fn(F, "ts_subtree_summarize_children", "R9")
+    if not fn:
+        return
+    sides = {"fragile_left": [], "fragile_right": []}
+    for pt, n, l, op in stores(fn):
+        f = writes_record(l, "SubtreeHeapData")
+        if f in sides:
+            sides[f].append(pt)
+    ctx.floor("stores of the fragile flags in ts_subtree_summarize_children", sum(len(v) for v in sides.values()), 4)
+    fc = bind(fn, "first_child", "children[0]")
+    lc = bind(fn, "last_child", "children[self.ptr->child_count - 1]")
+    if not fc or not lc:
+        ctx.bad("R9", "ts_subtree_summarize_children:edge-children", "first_child / last_child are no longer children[0] / children[child_count - 1]")
+        return
+    ctx.gate("R9", fn, sides["fragile_left"], [("left fragility comes from the first child's left side (or an error child)",
+                                               [("ts_subtree_fragile_left(first_child)", True), ("ts_subtree_is_error(child)", True)])], accept_desc="marking the parent left-fragile")
+    ctx.gate("R9", fn, sides["fragile_right"], [("right fragility comes from the last child's right side (or an error child)",
+                                                [("ts_subtree_fragile_right(last_child)", True), ("ts_subtree_is_error(child)", True)])], accept_desc="marking the parent right-fragile")
+
+
 def run(ctx):
     for cfg in configs(ctx):
         ctx.config = cfg
@@ -225,6 +251,7 @@ def run(ctx):
         rules(ctx, F)
         rule_eq(ctx, F)
         rule_condense(ctx, F)
+        rule_fragile_sides(ctx, F)
         # an edited tree's included ranges feed the range difference that vetoes reuse (shared with C10.W2)
         import C10
         C10.rule_range_edit(ctx, F)
